@@ -69,7 +69,7 @@ P = {
 
 # as-built additions (rounds 8-15 of seeded changes; DESIGN.md section 8)
 ADD = {
- "C01": " Plus, per table: explicit sweep programs (every size of every variable-size entry over a contiguous range, continuation / identical / overlapping / descending argument chains, strings with blank / NUL heads and tails, foreign handles, setters overwritten with other values), a byte-sum sweep (one argument per entry kind through all 256 low-byte values), every argument all-zero / all-ones beside ordinary neighbours, the value sweep (every numeric or byte-array argument of every entry kind, shape and constructor through util::value_set x the enumerated arguments; argument pairs equal / adjacent / doubled; argument = entry position), and a second DFS over one operation per kind to depth 4..16.",
+ "C01": " Plus, per table: explicit sweep programs (every size of every variable-size entry over a contiguous range, continuation / identical / overlapping / descending argument chains, strings with blank / NUL heads and tails, foreign handles, setters overwritten with other values), a byte-sum sweep (one argument per entry kind through all 256 low-byte values), every argument all-zero / all-ones beside ordinary neighbours, the value sweep (every numeric or byte-array argument of every entry kind, shape and constructor through util::value_set x the enumerated arguments; argument pairs equal / adjacent / doubled and over a 12-value special set; argument = entry position / table length / entry size / previous argument +-1; one special value in three entries), and a second DFS over one operation per kind to depth 4..16.",
  "C02": " The sweep programs, byte-sum sweep, value sweep and kind-level DFS of C01 are judged here too.",
  "C03": " The sweep programs, byte-sum sweep, value sweep and kind-level DFS of C01 are judged here too.",
  "C04": " The entry layer also uses all-arguments-equal, lower-case-letter and blank fills; the stand-alone structures (PCI-config GAS, typed GenericAddress, HEST error status block and data entry) are compared with their specification layouts; the sweep programs and the value sweep of C01 are judged here too.",
@@ -80,8 +80,8 @@ ADD = {
  "C09": " Plus every string over {name character, dot} up to 14 and over {name character, dot, backslash} up to 10 characters, well-formed paths with blank / tab / newline / NUL at their edges, and every one of the 1 367 631 four-character segments as single name (relative and rooted) and as first / last / middle segment.",
  "C10": " Plus value sweeps: Register over 13 spaces x every width x offsets x every access size, IO over every alignment x length, value-set minima x 5-6 maxima for every address-space kind with and without translation.",
  "C11": " Plus the value sweep of C01 over every option-bearing entry (every shape, every numeric argument through util::value_set x the enumerated arguments), the CFMWS closure for every interleave-ways value x arithmetic and the TCPA closure for four address spaces of its address arguments.",
- "C12": " Plus every HMAT shape of a 34x34 (thorough 64x64) grid and every SLIT size 1..40 (100) and 128..400 with every cell assigned in three orders, and every locality type x data type x transfer size with untouched cells, all 65 536 cell values in six program forms on three shapes, and all 256 x 256 SLIT distance pairs.",
- "C13": " Plus state-relative writes (Length := current length + k, a copied header), update_checksum, generic write/append of GenericAddress, and lockstep programs on large tables (slices of every size to 1100 and around 4 KiB / 64 KiB, every initial length 36..1100, byte-by-byte growth to 5000 bytes), and every typed append / sink / write with its value over util::value_set.",
+ "C12": " Plus every HMAT shape of a 34x34 (thorough 64x64) grid and every SLIT size 1..40 (100) and 128..400 with every cell assigned in three orders, and every locality type x data type x transfer size with untouched cells, all 65 536 cell values in six program forms on three shapes, all 256 x 256 SLIT distance pairs, and the large shapes with one and the same value in every cell.",
+ "C13": " Plus state-relative writes (Length := current length + k, a copied header), update_checksum, generic write/append of GenericAddress, and lockstep programs on large tables (slices of every size to 1100 and around 4 KiB / 64 KiB, every initial length 36..1100, byte-by-byte growth to 5000 bytes), every typed append / sink / write with its value over util::value_set, and all 80 ACPI table signatures as constructor signature and written in place.",
  "C14": " Plus the stand-alone structures and fills of lower-case letters / blanks in the raw-form comparison, and every public field of Rsdp / FACS / GAS set after construction.",
  "C15": " Plus strings with NUL / blank / quote / non-ASCII characters at either end, and PackageBuilder values obtained through Default and reused after core::mem::take; every character U+0000..U+07FF at the head, tail, inside of a string and every ASCII head pair, owned against borrowed.",
  "C16": " Plus every placement of four dashes among 36 positions, every pair of positions over 6 characters, identifier + suffix / prefix, and lower-case EISA digits (accepted only if they encode the same identifier), and every character U+0000..U+07FF at every position of three UUIDs and every digit position of three EISA ids.",
